@@ -978,7 +978,12 @@ func c04APIRecipe(sub uint64) (c04Builder, string) {
 		case k < 10:
 			o.kind, o.sval = "formula", rng.Pick([]string{"1+1", "SUM(A1:B2)", "A1&\"x\""})
 		case k < 11:
-			o.kind, o.ival = "style", rng.Range(1, 3) // styled-but-empty (or restyled) cell
+			if rng.Bool() {
+				// a number cell whose number format renders text (date, literal prefix)
+				o.kind, o.fval, o.ival = "fmtnum", float64(rng.Range(1, 45000)), rng.Range(3, 4)
+			} else {
+				o.kind, o.ival = "style", rng.Range(1, 3) // styled-but-empty (or restyled) cell
+			}
 		case k < 12:
 			// merged ranges stay disjoint (overlapping ranges are outside C03's invariant; the
 			// GetMergeCells finding on them is reproduced by the witness "overlap-merge")
@@ -1015,7 +1020,9 @@ func c04APIRecipe(sub uint64) (c04Builder, string) {
 		s1, _ := f.NewStyle(&xl.Style{Font: &xl.Font{Bold: true}})
 		s2, _ := f.NewStyle(&xl.Style{NumFmt: 2})
 		s3, _ := f.NewStyle(&xl.Style{NumFmt: 14})
-		styles := []int{0, s1, s2, s3}
+		xfmt := "\"x\"0"
+		s4, _ := f.NewStyle(&xl.Style{CustomNumFmt: &xfmt})
+		styles := []int{0, s1, s2, s3, s4}
 		for _, o := range ops {
 			switch o.kind {
 			case "str":
@@ -1029,6 +1036,9 @@ func c04APIRecipe(sub uint64) (c04Builder, string) {
 			case "formula":
 				f.SetCellFormula(o.sheet, o.cell, o.sval)
 			case "style":
+				f.SetCellStyle(o.sheet, o.cell, o.cell, styles[o.ival])
+			case "fmtnum":
+				f.SetCellValue(o.sheet, o.cell, o.fval)
 				f.SetCellStyle(o.sheet, o.cell, o.cell, styles[o.ival])
 			case "merge":
 				f.MergeCell(o.sheet, o.cell, o.cell2)
@@ -1562,6 +1572,43 @@ func c04AgreeFile(r *Run, f *xl.File, sh, replay, what string) {
 	if len(g) > 0 && len(g[len(g)-1]) == 0 {
 		r.Fail("agree:getrows-trailing-empty-row", "GetRows ends with an empty row: "+what, 0, replay)
 	}
+	c04SearchVsRows(r, f, sh, g, replay, what)
+}
+
+// literal SearchSheet finds exactly the cells that GetRows shows with that text, whatever
+// the cell type and number format behind the text (every distinct non-empty text of the sheet,
+// at most 12, texts that do not look like numbers first)
+func c04SearchVsRows(r *Run, f *xl.File, sh string, g [][]string, replay, what string) {
+	pos := map[string][]string{}
+	var order []string
+	for ro := range g {
+		for c, v := range g[ro] {
+			if v == "" {
+				continue
+			}
+			if _, ok := pos[v]; !ok {
+				order = append(order, v)
+			}
+			pos[v] = append(pos[v], c04Name(c+1, ro+1))
+		}
+	}
+	sort.SliceStable(order, func(i, j int) bool {
+		return !c04IsCanonNum(order[i]) && c04IsCanonNum(order[j])
+	})
+	if len(order) > 12 {
+		order = order[:12]
+	}
+	for _, v := range order {
+		res, err := f.SearchSheet(sh, v)
+		r.Stat("agree:search-needles")
+		if err != nil {
+			r.Fail("agree:search-error", fmt.Sprintf("SearchSheet(%q) error %v; state: %s", v, err, what), 0, replay)
+			continue
+		}
+		if strings.Join(res, ",") != strings.Join(pos[v], ",") {
+			r.Fail("agree:search-vs-getrows", fmt.Sprintf("%s: SearchSheet(%q) = %v, GetRows shows that text at %v; state: %s", sh, v, res, pos[v], what), 0, replay)
+		}
+	}
 }
 
 // ---------------------------------------------------------------- witnesses of the known findings / fixed defects
@@ -1661,6 +1708,19 @@ func c04Witness(r *Run, name string) {
 		if err == nil {
 			r.Fail("agree:getrows-swallows-row-limit", fmt.Sprintf("row r=1048577 after row 1: GetRows returns %q and a nil error", g), 0, replay)
 		}
+	case "search-formatted": // literal search sees the formatted text of number cells
+		f := xl.NewFile()
+		defer f.Close()
+		xfmt := "\"x\"0"
+		s1, _ := f.NewStyle(&xl.Style{CustomNumFmt: &xfmt})
+		s2, _ := f.NewStyle(&xl.Style{NumFmt: 14})
+		f.SetCellValue("Sheet1", "A1", 5)
+		f.SetCellStyle("Sheet1", "A1", "A1", s1)
+		f.SetCellValue("Sheet1", "B2", 36526)
+		f.SetCellStyle("Sheet1", "B2", "B2", s2)
+		f.SetCellValue("Sheet1", "C3", "x5")
+		g, _ := f.GetRows("Sheet1")
+		c04SearchVsRows(r, f, "Sheet1", g, replay, fmt.Sprintf("A1=5 as \"x\"0, B2=36526 as date, C3=\"x5\"; GetRows %q", g))
 	case "search-panic":
 		f := xl.NewFile()
 		defer f.Close()
@@ -1697,7 +1757,7 @@ func runC04(r *Run, rng *Rng, replay string) {
 	// coverage of the getter list
 	r.Notes = append(r.Notes, fmt.Sprintf("read batch draws from %d exported read functions", len(c04Covered)))
 	// 0. witnesses (deterministic)
-	for _, w := range []string{"raw-rewrite", "materialise", "search-panic", "basecolor", "condstyle-write", "sst-created", "rows-limit"} {
+	for _, w := range []string{"raw-rewrite", "materialise", "search-panic", "basecolor", "search-formatted", "condstyle-write", "sst-created", "rows-limit"} {
 		c04Witness(r, w)
 	}
 	for _, k := range []string{"rless-mixed", "missing-r-search"} {
